@@ -30,8 +30,9 @@ TRUSTED = [
     'terminate in floats although it does over Q',
 ]
 ASSUMPTIONS = [
-    'valid image: 2-D float image with BMAJ/BMIN, celestial WCS, constant rms 0.01 and zero background passed explicitly; '
-    'sources within 20 degrees of the reference point (the 1 % int_flux clause is validated there only)',
+    'valid image: 2-D float image with BMAJ/BMIN, celestial WCS (SIN / TAN; CDELT, rotated CDi_j or PCi_j + CDELT), constant rms '
+    '0.01 and zero background passed explicitly; sources within ~13 degrees of the reference pixel (the 1 % int_flux clause is '
+    'validated there; beyond ~17 degrees it is the recorded wide-field finding)',
     'innerclip 5, outerclip 4, cores=1, docov=True, max_summits=None; priorized input catalogues are outputs of the blind finder '
     'on the same image plus sources outside the image',
     'errors decision table: representatives 0.05 / 1e7 (huge) / -1 / -2 / 0 / nan / +-inf / None per stderr class; the class of a '
@@ -67,6 +68,20 @@ def specs_for(ctx):
         ('nonsquare', {'seed': rng.randrange(1 << 30), 'ncell': 4, 'cell': 24, 'nsrc': 16, 'cdelt': (-10.0 / 3600, 15.0 / 3600)}),
     ]
     out += TINY
+    # rotated pixel grids (CDi_j matrix, PCi_j + CDELT) in a small field, and medium fields (sources 3-13 degrees from the
+    # reference pixel, below the ~17 degrees of the recorded wide-field finding) with elongated sources: the 1 % int_flux
+    # clause and every other row clause apply strictly
+    med = {'ncell': 4, 'cell': 24, 'nsrc': 16, 'kinds': cc.ELONGATED}
+    out += [
+        ('cdrot', {'seed': rng.randrange(1 << 30), 'ncell': 3, 'cell': 24, 'nsrc': 9, 'kinds': cc.ELONGATED,
+                   'rot': rng.choice([-1, 1]) * rng.randint(10, 40), 'wcs': 'CD'}),
+        ('cdrot_mixed', {'seed': rng.randrange(1 << 30), 'ncell': 3, 'cell': 24, 'nsrc': 9, 'rot': rng.choice([-1, 1]) * rng.randint(10, 40),
+                         'wcs': 'CD', 'crval': (200.0, 45.0), 'beam': (45.0 / 3600, 30.0 / 3600, 30.0)}),
+        ('pcrot', {'seed': rng.randrange(1 << 30), 'ncell': 3, 'cell': 24, 'nsrc': 9, 'kinds': cc.ELONGATED,
+                   'rot': rng.choice([-1, 1]) * rng.randint(10, 40), 'wcs': 'PC'}),
+        ('medSIN', dict(med, seed=rng.randrange(1 << 30), cdelt=0.25, beam=(0.75, 0.75, 0.0), proj='SIN')),
+        ('medTAN', dict(med, seed=rng.randrange(1 << 30), cdelt=0.2, beam=(0.6, 0.6, 0.0), proj='TAN', crval=(20.0, 50.0))),
+    ]
     for k in range(4 if quick else 40):
         kinds = [rng.choice(cc.KINDS) for _ in range(9)]
         out.append((f'rand{k}', {'seed': rng.randrange(1 << 30), 'ncell': 3, 'cell': rng.choice([20, 24, 28]), 'nsrc': rng.randint(1, 9),
@@ -525,8 +540,8 @@ def run(ctx, model_ok=True):
     t0 = time.time()
     quick = ctx.tier == 'quick'
     ctx.rule = ('images: empty, single source, 45- and 60-island mosaics (isolated / blended pairs / 1-3 pixel islands / negative / '
-                'pos+neg joined / bright / elongated / edge sources / NaN blocks), non-square pixels, random 3x3 mosaics at varied '
-                'crval and beam; per image: blind with and without island rows, priorized stages 1-3 x regroup on/off on the blind '
+                'pos+neg joined / bright / elongated / edge sources / NaN blocks), non-square pixels, rotated CDi_j and PCi_j headers, '
+                '24- and 19-degree SIN / TAN fields with elongated sources, random 3x3 mosaics at varied crval and beam; per image: blind with and without island rows, priorized stages 1-3 x regroup on/off on the blind '
                 'catalogue + 2 sources outside the image. Every row -> Python oracle of the clauses and Coq cat_ok/row_failures; island '
                 'rows -> detection by an independent flood fill; flags -> model of the small-island logic; (island, source) pairs -> '
                 'model numbering; errors(): 500+ synthetic stderr classes; pa_limit/fix_shape/dec2dms on exact inputs. '
